@@ -16,7 +16,7 @@ func init() {
 		Explain: "Decided: D1 termination by variant — in the symlink resolver every cycle of the control-flow graph passes the loop head, the hop budget only ever decreases by a positive constant around the loop, and the loop head returns an error when the budget is below zero, so the loop runs at most max+1 times for every symlink graph; " +
 			"D2 Open, Stat and ReadDir all resolve through that resolver with the view's configured maximum depth on the node looked up for the requested name; the non-symlink exit returns the current node, a failed lookup returns the lookup's error, the cycle error is returned only under pointer equality with the slow pointer, the depth error only under budget < 0; " +
 			"D3 symlink nodes are created only when symlink.TargetOutsideRoot(<virtual path>, <raw link name>) is false — the raw, un-normalised target is what is checked; D4 resolution is read-only: file nodes are shared between the views of all chain layers, and no field of an existing node except its lazily opened file handle is ever written after construction (so nothing a lookup does in one view can change another view's answer). " +
-			"Added in round 2: D2 additionally: FS.Stat answers with resolvedNode.Stat(); D3 additionally: TargetOutsideRoot examines the joined, cleaned path on every return. Added in round 3: D5 relative link targets go into path.Join unchanged; no cutset trimming in the image packages. Added in round 7: D6 the pruning pass marks, in each of its symlinkDepth iterations, the node its own tree.Get returned — as many hops as the resolver follows. NOT decided: 'first non-symlink target iff at most max hops' and the cycle-versus-depth classification as values (needs enumeration of small graphs, another technique).",
+			"Added in round 2: D2 additionally: FS.Stat answers with resolvedNode.Stat(); D3 additionally: TargetOutsideRoot examines the joined, cleaned path on every return. Added in round 3: D5 relative link targets go into path.Join unchanged; no cutset trimming in the image packages. Added in round 7: D6 the pruning pass marks, in each of its symlinkDepth iterations, the node its own tree.Get returned — as many hops as the resolver follows. Added in round 8: D1 additionally: every chainLayer initializeChainLayers builds gets maxSymlinkDepth on every path to a non-nil return. NOT decided: 'first non-symlink target iff at most max hops' and the cycle-versus-depth classification as values (needs enumeration of small graphs, another technique).",
 		Run: runC17,
 		Controls: []Mutant{
 			{Name: "depth-not-decremented", File: "artifact/image/layerscanning/image/layer.go", Old: "		advanceSlowNode = !advanceSlowNode\n		depth--\n", New: "		advanceSlowNode = !advanceSlowNode\n", Rule: "D1-variant", Site: "resolveSymlink"},
@@ -48,6 +48,7 @@ func runC17(p *Prog, r *Report) {
 	c17StatAnswers(p, r)
 	readDirListsResolvedNode(p, r, "D2-resolve")
 	c17DepthAsConfigured(p, r, "D1-variant")
+	everyViewGetsTheDepth(p, r, "D1-variant")
 	c17StatKeepsResolverError(p, r, "D2-resolve")
 	r.Rule("D5-target-normalisation", "link targets are normalised with path.Clean/Join, never by trimming character sets")
 	cutsetDiscipline(p, r, "D5-target-normalisation", imgPkg, "artifact/image/symlink", "artifact/image/unpack", "artifact/image/pathtree")
